@@ -1246,3 +1246,41 @@ impl ClearVOBitsAfterPrepare {
         }
     }
 }
+
+/// Verification hooks (only with `--cfg mmtk_verif`): call the private mark transition of the
+/// first `ImmixSpace` of the plan of `mmtk` from harness threads.
+#[cfg(mmtk_verif)]
+pub mod verif_hooks {
+    use super::*;
+
+    /// `ImmixSpace::attempt_mark(object, mark_state)` on the plan's first Immix space.
+    /// Returns `None` if the plan has no `ImmixSpace`.
+    pub fn attempt_mark<VM: VMBinding>(
+        mmtk: &MMTK<VM>,
+        object: ObjectReference,
+        mark_state: u8,
+    ) -> Option<bool> {
+        let mut res = None;
+        mmtk.get_plan().for_each_space(&mut |s| {
+            if res.is_none() {
+                if let Some(ix) = s.downcast_ref::<ImmixSpace<VM>>() {
+                    res = Some(ix.attempt_mark(object, mark_state));
+                }
+            }
+        });
+        res
+    }
+
+    /// The current mark state of the plan's first Immix space.
+    pub fn mark_state<VM: VMBinding>(mmtk: &MMTK<VM>) -> Option<u8> {
+        let mut res = None;
+        mmtk.get_plan().for_each_space(&mut |s| {
+            if res.is_none() {
+                if let Some(ix) = s.downcast_ref::<ImmixSpace<VM>>() {
+                    res = Some(ix.mark_state);
+                }
+            }
+        });
+        res
+    }
+}
